@@ -226,7 +226,7 @@ def run(c):
         if field == "ok": e["ok"] = False
         elif field == "mac": e["wire"] = list(e["wire"]); e["wire"][1] ^= 1
         else: e["rget"] -= 256
-        sel.append((len(sum([x[0] for x in sel], [])) + idx - lo, want, [json.dumps(x) for x in evs]))
+        sel.append((sum(len(x[2]) for x in sel) + idx - lo, want, [json.dumps(x) for x in evs]))
     flat = sum([x[2] for x in sel], [])
     got = c.validate("Trace_X01", flat, stateful=True, shards=1, extra_files=extra)
     c.cov["traces_validated_against_impl"] -= len(flat)
@@ -276,7 +276,7 @@ def run(c):
     c.triage(firsts, classify, confirm)
 
     # ---- coverage accounting (information; no verdicts here)
-    stats = dict(accepted=0, rejected=0, accepted_undecodable=0, sqn_wraps=0, carries_00FFFF_010000=0, count_wraps=0, concrete_short=0)
+    stats = dict(accepted=0, rejected=0, accepted_undecodable=0, sqn_wraps=0, carries_into_bit16=0, crossed_00FFFF_010000=0, count_wraps=0, concrete_short=0)
     ctx = None; ps = pr = 0; nhist = 0
     per_ctx = {}
     for ln in events:
@@ -288,8 +288,10 @@ def run(c):
         bs, br = boundary(ps, e["sget"]), boundary(pr, e["rget"])
         for b in (bs, br):
             if b == "sqn-wrap": stats["sqn_wraps"] += 1
-            elif b == "carry-16": stats["carries_00FFFF_010000"] += 1
+            elif b == "carry-16": stats["carries_into_bit16"] += 1
             elif b == "count-wrap": stats["count_wraps"] += 1
+        for a, b in ((ps, e["sget"]), (pr, e["rget"])):
+            if a <= 0x00ffff < b: stats["crossed_00FFFF_010000"] += 1
         if e["op"] == "Deliver":
             stats["accepted" if e["ok"] else "rejected"] += 1
             if e["ok"] and not e["dec"]: stats["accepted_undecodable"] += 1
@@ -299,7 +301,7 @@ def run(c):
     phase('accounting')
     if len(per_ctx) != len(ALL_CTX):
         raise Infra("only %d of %d security contexts were exercised" % (len(per_ctx), len(ALL_CTX)))
-    for k in ("sqn_wraps", "carries_00FFFF_010000", "count_wraps", "accepted", "rejected"):
+    for k in ("sqn_wraps", "crossed_00FFFF_010000", "count_wraps", "accepted", "rejected"):
         if stats[k] == 0:
             raise Infra("no behaviour reached: " + k)
     c.cov.update(stats)
